@@ -57,6 +57,15 @@ def acls(tier):
                                                               ARule("~", [ARule("e")])])])
     add("overlap-local-local", lambda: [ARule("a *", [ARule("c 1 ~", [ARule("d")]), ARule("~", [ARule("e")])])])
     add("overlap-top", lambda: [ARule("c 1 ~", [ARule("d")]), ARule("c *", glob=True), ARule("~", [ARule("e"), ARule("d")])])
+    # a specific block rule next to a general one for the same rows: the block 'a 2' is matched by both, so the children of
+    # both apply inside it (here: a %global catch-all reaches below 'c' inside 'a 2' only, never inside 'a 1')
+    add("overlap-specific-nested-global", lambda: [ARule("a 2", [ARule("~", glob=True)]), ARule("a *", [ARule("c", [ARule("d")])])])
+    add("overlap-specific-nested-global-2", lambda: [ARule("a 2", [ARule("d", glob=True)]), ARule("a *", [ARule("c *", [ARule("c")])])])
+    # heads that merely begin with the letters of a negation word ('undo', 'no'): they are ordinary commands, and their
+    # negated form is '<word> <row>'
+    add("prefix-letters-leaf", lambda: [ARule("undoc *"), ARule("notify ~")])
+    add("prefix-letters-block", lambda: [ARule("a *", [ARule("undoc *"), ARule("noc")])])
+    add("prefix-letters-cd", lambda: [ARule("undoc *", cant_delete=True), ARule("a *", [ARule("undoc")], cant_delete=True)])
     if tier == "thorough":
         for i, (mk1, mk2) in enumerate(itertools.product(leafs(["a"]), leafs(["b"], with_global=False))):
             add("L2-%d" % i, lambda mk1=mk1, mk2=mk2: [mk1(), mk2()])
